@@ -1,6 +1,7 @@
 import VibeProof.Model.BTree
 import VibeProof.Lemmas.BTree
 import VibeProof.Lemmas.BTreeDelete
+import VibeProof.Lemmas.BTreeBulk
 /-
 C17 — the disk-backed B+ tree behaves as an ordered multimap and stays well-formed.
 
@@ -1041,6 +1042,44 @@ theorem C17_delete_specific : C17_delete_specific_full := by
   refine ⟨t', b, h1, h2, h3, ?_⟩
   obtain ⟨s1, _⟩ := findLeaf_sorted d t.h none none t.root k es hw trivial trivial hes
   rw [hb, leafDeleteOne_isSome es k rid s1, amLookup_leaf_eq d t k hw es hes]
+
+/-! ## bulk load -/
+
+theorem takeCount_ok (d : Nat) (hd : 5 ≤ d) (n : Nat) (hn : 2 ≤ n) :
+    2 ≤ takeCount (internalCap d) n ∧ takeCount (internalCap d) n ≤ n ∧ takeCount (internalCap d) n < d ∧
+      n - takeCount (internalCap d) n ≠ 1 := by
+  have key : ∀ m : Nat, m ≤ n → 2 ≤ m → m < d →
+      2 ≤ (if n - m = 1 then (if 2 < m then m - 1 else m + 1) else m) ∧
+      (if n - m = 1 then (if 2 < m then m - 1 else m + 1) else m) ≤ n ∧
+      (if n - m = 1 then (if 2 < m then m - 1 else m + 1) else m) < d ∧
+      n - (if n - m = 1 then (if 2 < m then m - 1 else m + 1) else m) ≠ 1 := by
+    intro m h1 h2 h3
+    by_cases c1 : n - m = 1 <;> by_cases c2 : 2 < m <;> simp only [c1, c2, if_true, if_false] <;> omega
+  have hm1 : min (max (d * 3 / 4) 2) n ≤ n := Nat.min_le_right _ _
+  have hm2 : min (max (d * 3 / 4) 2) n ≤ max (d * 3 / 4) 2 := Nat.min_le_left _ _
+  have hm3 : 2 ≤ min (max (d * 3 / 4) 2) n := Nat.le_min.mpr ⟨Nat.le_max_right _ _, hn⟩
+  have hm4 : max (d * 3 / 4) 2 < d := Nat.max_lt.mpr ⟨by omega, by omega⟩
+  exact key (min (max (d * 3 / 4) 2) n) hm1 hm3 (by omega)
+
+/-- **bulk load of key-sorted entries builds a well-formed tree that denotes the grouped entries**
+    (any number of entries and duplicates, any degree ≥ 5; this is also what a spill to disk does) -/
+theorem C17_bulk_load (d : Nat) (hd : 5 ≤ d) (es : List (Key × RowId))
+    (hs : es.Pairwise (fun a b => a.1 ≤ b.1)) :
+    ∃ t, bulkLoad d es = .ok t ∧ t.WF d ∧ t.toAssoc = group es := by
+  obtain ⟨g1, g2⟩ := group_sorted es hs
+  unfold bulkLoad
+  cases hg : group es with
+  | nil => exact ⟨BTree.empty, rfl, ⟨List.Pairwise.nil, by simp, by simp; omega, trivial⟩, rfl⟩
+  | cons x xs =>
+    rw [hg] at g1 g2
+    obtain ⟨l0, lt, r, e1, e2, e3, _, e5, e6⟩ := leafLevel d (leafCap d) (by simp [leafCap]; omega)
+      (by simp only [leafCap]; omega) (x :: xs).length x xs none (Nat.le_refl _) g1
+      (fun e he => ⟨trivial, g2 e he⟩)
+    simp only []
+    rw [e1]
+    obtain ⟨t, h1, h2, h3⟩ := buildLevels_correct d (internalCap d) (takeCount_ok d hd) (l0 :: lt).length 0 l0 lt r
+      (by omega) e2 e3
+    exact ⟨t, h1, h2, by rw [BTree.toAssoc, h3, e5]⟩
 
 /-! ## operation sequences -/
 
